@@ -355,7 +355,13 @@ class Ctx:
             kf = json.load(fh)
         return [k for k in kf.get("known", []) if k["property"] == self.pid]
 
-    def finish(self, level="model_checking"):
+    def finish(self, level=None):
+        if level is None:
+            level = "model_checking"
+            try:
+                level = json.load(open(os.path.join(VERIF, "checks", self.pid + ".json"))).get("category", level)
+            except (OSError, ValueError):
+                pass
         wall = time.time() - self.t0
         cov = {
             "states": self.states, "transitions": self.transitions,
